@@ -13,7 +13,7 @@ R-C05-5  rejection, not panic: shared with C16 (verification entry points)
 from bpsa.facts import callee_decl, callee_name
 from bpsa.normal import canon
 from bpsa.terms import walk, short, TERM_IDX, mk_elem
-from .common import guard_table
+from .common import guard_table, unconditional
 from . import wire, msm, weights, C04
 from .weights import strip
 
@@ -136,7 +136,7 @@ def run(ctx):
             ctx_skip = any('skip(' in f for f in fa)
             whole = any(f.startswith('skip(') for f in fa) or not ctx_skip
             sides = [x for x in a[2:4] if 'each(p2)' in x]
-            return whole and all(('<skip>' in x) == ctx_skip for x in sides)
+            return whole and unconditional(r) and all(('<skip>' in x) == ctx_skip for x in sides)
         d1g = [a for r in crow for a in r['atoms'] if a[0] == 'cmp' and a[1] == 'Eq' and 'd1' in a[2] + a[3] and 'extension_degree' in a[2] + a[3] and aligned(r, a)]
         rep.check(len(d1g) >= 2, 'R-C05-2', 'R-C05-2/len-d1', 'd1 is zipped with the blinding-generator scalars under len(d1) == extension degree guards (first and every other member, proof i paired with statement i)',
                   'only %d guard(s) tie len(d1) to the extension degree' % len(d1g), ctx.where(cons))
